@@ -127,7 +127,8 @@ Sig1Nx(rom, s, e) ==
 
 DecOK(rom, s, e) ==
   /\ s.st = "Dec" /\ e.rd /\ e.ok                        \* AES-CTR plaintext = application (+ relocation table) || TrustZone data
-  /\ e.key = (IF s.h.ks THEN "userKey" ELSE "AES-ECB(masterKey, 01 0^15 02 0^15)")
+  \* the image key is the user key of the key store - the one in the file, or one provisioned on the device earlier (rom.ksdev) - else it is derived from the OTP master key
+  /\ e.key = (IF s.h.ks \/ rom.ksdev THEN "userKey" ELSE "AES-ECB(masterKey, 01 0^15 02 0^15)")
   /\ e.ivAt = s.cbEnd + EncIvtLen /\ e.ivLen = IvLen
   /\ e.segs = << <<s.cbEnd, s.cbEnd + EncIvtLen>>, <<EncIvtLen, IvtLen>>, <<IvtLen + s.shift, s.cb.at>>,
                  <<s.cbEnd + EncIvtLen + IvLen, Sig1At(rom, s)>> >>
